@@ -16,7 +16,7 @@ NAMESPACE = "Props.C12"
 DRIVER = "drivers/C12.lean"
 GEN_MODULES = []
 EXTRA_LEAN_MODULES = ["NiVerif.Model.Heap"]
-THEOREMS = ["cellOf_set", "readAt_writeAt", "read_write_other_cell", "writes_frame", "read_alloc_old", "read_alloc_new",
+THEOREMS = ["grow_same_cell", "appendGrow_same_cell", "view_cannot_grow", "cellOf_set", "readAt_writeAt", "read_write_other_cell", "writes_frame", "read_alloc_old", "read_alloc_new",
             "alloc_fresh", "copy_true_fresh", "copy_true_succeeds", "copy_true_isolates", "copy_false_shares",
             "no_silent_copy", "copy_false_outcomes", "write_slice", "read_slice", "window_write_lands_in_buffer",
             "window_read_is_buffer", "pick_getElem?", "column_write_lands_in_data", "read_write_same",
@@ -143,7 +143,7 @@ class Scenario:
             a = np.memmap(path, dtype=dtype, mode="r+", shape=shape)
             a._verif_path = path
         else:
-            a = np.array(vals, dtype).reshape(shape)
+            a = np.array(vals, dtype).reshape(shape).copy()      # an array that owns its memory (reshape alone returns a view)
         name = self.fresh("A")
         cell = self.mem.add(a)
         self.refs[name] = a
@@ -491,9 +491,84 @@ def run_digital(ctx, tmpdir, lines, expect):
     rng = ctx.rng
     for it in range(250 if ctx.quick else 3000):
         sc = Scenario(ctx, tmpdir)
-        path = rng.choice(["lines1", "lines2", "lines2", "ctor", "load", "port", "ports"])
+        path = rng.choice(["lines1", "lines2", "lines2", "ctor", "load", "port", "ports", "regrow", "regrow"])
         copy = rng.random() < 0.5
         pairs = []
+        if path == "regrow":
+            # adopt (copy=False) an owning array, adopt another one with load_data(copy=False), then append past the capacity:
+            # the array the object holds *now* is the one that grows (in place) and receives the samples
+            def owner(nd):
+                n = rng.randint(1, 4)
+                return sc.new_owner(np.uint8, (n,) if nd == 1 else (n, 1))
+            a1 = owner(rng.choice([1, 1, 2]))
+            A1 = sc.refs[a1]
+            first = rng.choice(["lines", "ctor", "sized"])
+            if first == "sized":
+                wobj = DigitalWaveform(rng.randint(0, 2), 1)
+                w = sc.fresh("W"); a0 = sc.fresh("A")
+                d0 = wobj.data
+                base0 = d0.base if d0.base is not None else d0
+                while isinstance(getattr(base0, "base", None), np.ndarray):
+                    base0 = base0.base
+                cell = sc.mem.add(base0)
+                sc.refs[a0] = None
+                sc.emit(f"alloc {a0} 6 {enc_ints([0] * wobj.capacity)}", ref_text(cell, list(range(wobj.capacity)), 6))
+                sc.objs[w] = (wobj, "digital", 1)
+                sc.emit(f"adopt {w} {a0} 1 0 {len(d0)}", ("prefix", "ok "))
+            else:
+                wobj = DigitalWaveform.from_lines(A1, copy=False) if first == "lines" else DigitalWaveform(data=A1)
+                w = sc.fresh("W")
+                sc.objs[w] = (wobj, "digital", 1)
+                if first == "lines":
+                    r0 = sc.fresh("R")
+                    sc.emit(f"asarray {r0} {a1} - 0", ("prefix", "ok "))
+                    sc.expect_ref(f"adopt {w} {r0} 1 0 -", wobj.data, 6)
+                else:
+                    sc.expect_ref(f"adopt {w} {a1} 1 0 -", wobj.data, 6)
+            steps = rng.randint(1, 3)
+            for _k in range(steps):
+                a2 = owner(rng.choice([1, 2]))
+                A2 = sc.refs[a2]
+                n2 = len(A2)
+                r = outcome(lambda: wobj.load_data(A2, copy=False))
+                if r[0] != "ok":
+                    sc.viol(what="load_data(copy=False) refused a valid array", observed=show(r)[:200], required="accepted"); break
+                sc.expect_ref(f"loadadopt {w} {a2} 0 {n2}", wobj.data, 6)
+                loaded = ints_of(A2)
+                m = rng.randint(1, 3)
+                vals = [rng.randint(1, 7) for _ in range(m)]
+                mode = rng.choice(["append", "append", "capacity"])
+                if mode == "append":
+                    r = outcome(lambda: wobj.append(np.array(vals, np.uint8).reshape(m, 1) if rng.random() < 0.5 else np.array(vals, np.uint8)))
+                    if r[0] != "ok":
+                        sc.viol(what="append to a waveform holding an adopted owning array failed", observed=show(r)[:200], required="grows in place"); break
+                    sc.expect_ref(f"appendg {w} {enc_ints(vals)}", wobj.data, 6)
+                    sc.emit(f"bufref {a2} {w}", ("prefix", "ok "))
+                    want = loaded + vals
+                else:
+                    r = outcome(lambda: setattr(wobj, "capacity", n2 + m))
+                    if r[0] != "ok":
+                        sc.viol(what="capacity growth of an adopted owning array failed", observed=show(r)[:200], required="grows in place"); break
+                    sc.emit(f"appendg {w} {enc_ints([0] * m)}", ("prefix", "ok "))
+                    sc.emit(f"bufref {a2} {w}", ("prefix", "ok "))
+                    sc.emit(f"loadadopt {w} {a2} 0 {n2}", ("prefix", "ok "))     # window back to the loaded samples
+                    want = loaded
+                got = ints_of(wobj.data)
+                if got != want:
+                    sc.viol(what="after load_data(copy=False) and growth the waveform no longer shows the loaded samples", loaded=str(loaded),
+                            observed=str(got), required=str(want))
+                    break
+                if not np.shares_memory(wobj.data, A2):
+                    sc.viol(what="after load_data(copy=False) and growth the waveform no longer shares the caller's array", observed="independent memory",
+                            required="the adopted array, resized in place")
+                    break
+                sc.check_values()
+            ctx.count("digital-path", "regrow")
+            lines += sc.lines; expect += sc.expect
+            ctx.case(("digital", it, "regrow"), nontrivial=True)
+            if not sc.ok:
+                return
+            continue
         if path in ("lines1", "lines2"):
             sname, src, is_arr = sc.source_1d(np.uint8) if path == "lines1" else sc.source_2d(np.uint8)
             cast = is_arr and rng.random() < 0.15
